@@ -274,7 +274,7 @@ func classifyC18(sc *Scenario, h *History, st *Stats) string {
 func init() {
 	register(&Property{
 		ID: "C18", Level: "exploration",
-		Rule:     "real LMTP smtp.Client against the real LMTP smtp.Server with a per-recipient backend: 1-3 consecutive transactions (systematic) x 1-3 accepted recipients each, some extra recipients refused at RCPT, per-recipient verdicts {250, 550, 452} set before/after reading/after a park, LMTPData with a callback or Data without (systematic), a NOOP after every transaction. Every case is non-trivial; distinct by the per-transaction (recipient count, verdict vector, API) list.",
+		Rule:     "real LMTP smtp.Client against the real LMTP smtp.Server with a per-recipient backend: 1-3 consecutive transactions (systematic) x 1-3 accepted recipients each, some extra recipients refused at RCPT, per-recipient verdicts {250, 550, 452} set before/after reading/after a park, LMTPData with a callback or Data without (systematic), a NOOP after every transaction. Every case is non-trivial; distinct by the per-transaction (recipient count, verdict vector, API) list. Replies re-cut by the network; a per-recipient status or the message itself later than CommandTimeout; the same broken-off-exchange stratum as C16 with a per-recipient false-success oracle.",
 		Gen:      genC18,
 		Check:    checkC18,
 		Classify: classifyC18,
